@@ -101,6 +101,7 @@ func (M6) TableName() string { return "t6" }
 // FDesc: what the harness author wrote for a field (NOT read back from gorm's parsed schema).
 type FDesc struct {
 	ColTag bool `json:"coltag"` // an explicit column: tag
+	DBDef  bool `json:"dbdef"`  // default:(expr) — a database-side default gorm does not parse
 	Name string `json:"name"`
 	Col  string `json:"col"`  // physical column of the hand-made table (exists even for ignored fields)
 	Kind string `json:"kind"` // int | str | time | unix | milli
@@ -194,6 +195,13 @@ func gormTag(f FDesc, defaultCol string) string {
 	}
 	if f.ColTag {
 		parts = append(parts, "column:"+f.Col)
+	}
+	if f.DBDef {
+		if f.Kind == "str" {
+			parts = append(parts, "default:(lower('NONE'))")
+		} else {
+			parts = append(parts, "default:(1+1)")
+		}
 	}
 	switch f.Dash {
 	case "-":
@@ -294,6 +302,9 @@ func genType(r *lib.Rng) (string, []FDesc) {
 			f.Col, f.ColTag = fmt.Sprintf("c_%d", i), true
 		}
 		perm(&f)
+		// a database-side default only on fields gorm keeps a data type for ("-" / "-:all" clear it and the
+		// field then never reaches FieldsWithDefaultDBValue, whatever "<-" says: contradictory tags, not generated)
+		f.DBDef = f.Dash == "" && r.Chance(1, 4)
 		fs = append(fs, f)
 	}
 	if r.Chance(2, 3) {
@@ -347,6 +358,7 @@ type Input struct {
 	Omits    []SItem `json:"omits"`
 	Rows     []Row   `json:"rows"`     // struct payload(s); map payload = Rows[0].PV with spellings
 	ModelKey int64   `json:"model_key"` // Model(&T{ID: k}), 0 = Model(&T{})
+	ModelSlice []int64 `json:"model_slice,omitempty"` // Model(&[]T{{ID: k}, ...}) (0 = key-less element); nil = a struct
 	ModelLoc int64   `json:"model_loc"` // composite key: Model(&T{ID: k, Locale: locales[ModelLoc]})
 	WhereIDs []int64 `json:"where_ids"` // Where("rid IN ?", rows); nil = no Where
 	HasWhere bool    `json:"has_where"`
@@ -638,7 +650,15 @@ func run(e *env, in Input) Obs {
 		model.Elem().FieldByName("Locale").SetString(locales[in.ModelLoc])
 	}
 	isUpdate := strings.HasPrefix(in.Kind, "update")
-	if isUpdate || in.Kind == "create_map" || in.Kind == "create_maps" || in.ChainModel {
+	if in.ModelSlice != nil {
+		sl := reflect.MakeSlice(reflect.SliceOf(t.Type), len(in.ModelSlice), len(in.ModelSlice))
+		for i, k := range in.ModelSlice {
+			sl.Index(i).FieldByName("ID").SetUint(uint64(k))
+		}
+		p := reflect.New(sl.Type())
+		p.Elem().Set(sl)
+		tx = tx.Model(p.Interface())
+	} else if isUpdate || in.Kind == "create_map" || in.Kind == "create_maps" || in.ChainModel {
 		tx = tx.Model(model.Interface())
 	}
 	if in.HasWhere {
@@ -827,7 +847,7 @@ func gField(f FDesc) string {
 	ro := gOptS(f.RO, map[string]string{"->": "true", "->:false": "false"})
 	rw := gOptS(f.RW, map[string]string{"<-": "WAll", "create": "WCreate", "update": "WUpdate", "false": "WFalse", "create,update": "WCreateUpdate"})
 	auto := map[string]string{"": "ANone", "create": "ACreate", "update": "AUpdate"}[f.Auto]
-	return lib.App("mk_field", lib.Str(f.Name), lib.Str(f.Col), lib.Bool(f.ColTag), dash, ro, rw, lib.Bool(f.PK), auto)
+	return lib.App("mk_field", lib.Str(f.Name), lib.Str(f.Col), lib.Bool(f.ColTag), lib.Bool(f.DBDef), dash, ro, rw, lib.Bool(f.PK), auto)
 }
 func gItem(t TDesc, s SItem) string {
 	switch s.Form {
@@ -934,17 +954,20 @@ func term(in Input, o Obs) string {
 			}
 			return lib.Pair(lib.Z(rid), lib.ZList(ks))
 		}), func() string {
-			if isComposite(t) {
-				return lib.ZList([]int64{in.ModelKey, in.ModelLoc})
+			if in.ModelSlice != nil {
+				return lib.App("MSlice", lib.ZList(in.ModelSlice))
 			}
-			return lib.ZList([]int64{in.ModelKey})
+			if isComposite(t) {
+				return lib.App("MStruct", lib.ZList([]int64{in.ModelKey, in.ModelLoc}))
+			}
+			return lib.App("MStruct", lib.ZList([]int64{in.ModelKey}))
 		}(), where,
 		lib.ListOf(o.Cells, gCell), lib.Bool(o.Err != ""), lib.ListOf(o.Parsed, gPF), lib.Bool(o.Setup != ""))
 }
 
 // ---- generation ------------------------------------------------------------------------------------
 
-var kinds = []string{"create_maps", "create_maps", "foc_assign", "foc_assign", "foi_assign", "create", "create_batch", "create_map", "upsert_all", "upsert_cols", "upsert_nothing", "save",
+var kinds = []string{"create_batch", "create_maps", "create_maps", "foc_assign", "foc_assign", "foi_assign", "create", "create_batch", "create_map", "upsert_all", "upsert_cols", "upsert_nothing", "save",
 	"update", "updates_struct", "updates_map", "update_column", "update_columns_struct", "update_columns_map"}
 
 func nonKey(t TDesc) []int {
@@ -1079,6 +1102,25 @@ func genInput(r *lib.Rng, edge bool, dyn *Input) Input {
 		if r.Bool() {
 			in.Batch = r.Range(1, 3)
 		}
+		// fields with a database-side default: every element carries a value, or none does (an element
+		// without a value would need the dialect's DEFAULT placeholder, which SQLite lacks: the mixed
+		// case is kept for single-statement batches of the edge stream and must fail as a whole)
+		for _, j := range nonKey(t) {
+			if !t.Fields[j].DBDef || (edge && in.Batch == 0 && r.Chance(1, 3)) {
+				continue
+			}
+			z := r.Chance(1, 4)
+			if !z && len(in.Selects) == 0 && r.Chance(1, 3) {
+				in.Omits = append(in.Omits, SItem{lib.Pick(r, []string{"field", "col"}), j}) // Omit of a defaulted column
+			}
+			for i := range in.Rows {
+				for k := range in.Rows[i].PV {
+					if in.Rows[i].PV[k].Field == j {
+						in.Rows[i].PV[k].Zero = z
+					}
+				}
+			}
+		}
 	case "create_map":
 		in.Rows = []Row{mapRow(r, t, freshID(), r.Range(1, 4), edge)}
 		if len(in.Rows[0].PV) == 0 {
@@ -1144,7 +1186,7 @@ func genInput(r *lib.Rng, edge bool, dyn *Input) Input {
 			var ok []int
 			for _, j := range nonKey(t) {
 				f := t.Fields[j]
-				if c, u := permOf(f); hasColumn(f) && c && u {
+				if c, u := permOf(f); hasColumn(f) && c && u && !f.DBDef { // listed columns must be inserted ones
 					ok = append(ok, j)
 				}
 			}
@@ -1224,6 +1266,20 @@ func genInput(r *lib.Rng, edge bool, dyn *Input) Input {
 		if edge && r.Chance(1, 4) {
 			in.ModelKey = 9 // no such row
 		}
+		if !comp && r.Chance(1, 4) {
+			// a slice model: 2-3 elements mixing key-less and keyed ones in every order, together with a
+			// Where matching more rows than the slice's keys
+			in.ModelKey = 0
+			n := r.Range(2, 3)
+			for i := 0; i < n; i++ {
+				k := int64(0)
+				if r.Chance(3, 5) {
+					k = int64(1 + r.Intn(4))
+				}
+				in.ModelSlice = append(in.ModelSlice, k)
+			}
+			in.HasWhere = true
+		}
 		if comp {
 			// the model value carries the whole key (one row), or only one member (two rows share it)
 			in.ModelKey, in.ModelLoc = int64(1+r.Intn(2)), int64(1+r.Intn(2))
@@ -1277,7 +1333,7 @@ func shape(in Input) string {
 			fmt.Fprintf(&sb, "%d%s%s,", pv.Field, z, pv.Spell)
 		}
 	}
-	fmt.Fprintf(&sb, "|k%d.%d|w%v%d|c%v", in.ModelKey, in.ModelLoc, in.HasWhere, len(in.WhereIDs), in.Cols)
+	fmt.Fprintf(&sb, "|k%d.%d%v|w%v%d|c%v", in.ModelKey, in.ModelLoc, in.ModelSlice, in.HasWhere, len(in.WhereIDs), in.Cols)
 	return sb.String()
 }
 
@@ -1313,8 +1369,20 @@ func trackedKeyUnselected(in Input) bool {
 	return false
 }
 
-// sig: no known finding is open for C10.
-func sig(in Input) string { return "" }
+// sig: known-finding signature, computed from the INPUT only.
+// slice-model-last-keyless: an update whose Model is a slice with at least one keyed element and a
+// key-less LAST element: no key restriction is added at all (the scan leaves isZero describing the last
+// element), so every row matching the chain's other condition changes.
+func sig(in Input) string {
+	if n := len(in.ModelSlice); n > 0 && in.ModelSlice[n-1] == 0 {
+		for _, k := range in.ModelSlice {
+			if k != 0 {
+				return "slice-model-last-keyless"
+			}
+		}
+	}
+	return ""
+}
 
 func main() {
 	a := lib.ParseArgs()
@@ -1331,10 +1399,25 @@ func main() {
 		if in.Dyn != nil {
 			out.Count("model_type", "generated")
 			for _, f := range in.Dyn {
+				if f.DBDef {
+					c, _ := permOf(f)
+					out.Count("db_default_field", fmt.Sprintf("%s creatable=%v", in.Kind, c))
+				}
 				out.Count("generated_field_tags", "dash="+f.Dash+" ro="+f.RO+" rw="+f.RW)
 			}
 		} else {
 			out.Count("model_type", fmt.Sprintf("M%d", in.Type+1))
+			if in.ModelSlice != nil {
+				pat := ""
+				for _, k := range in.ModelSlice {
+					if k == 0 {
+						pat += "z"
+					} else {
+						pat += "k"
+					}
+				}
+				out.Count("slice_model(k=keyed,z=key-less)", pat)
+			}
 			if isComposite(typeOf(in)) {
 				out.Count("composite_model_key", fmt.Sprintf("id=%v locale=%v where=%v", in.ModelKey != 0, in.ModelLoc != 0, in.HasWhere))
 			}
@@ -1408,8 +1491,11 @@ func main() {
 		if out_stale {
 			kind = "stale-copy-narrow-select"
 		}
+		if sig(in) != "" {
+			kind = "known-shape"
+		}
 		add(kind, in)
 	}
-	out.Extra["rule"] = "a case = one write finisher (Create, Create(&slice)/CreateInBatches, Create from map, upsert UpdateAll / DoUpdates(cols) / DoNothing, Save, Update, Updates struct|map, UpdateColumn, UpdateColumns struct|map, Create(&[]map) with per-key column/field spelling, [Model(&T{}).]Where(2-3 rows).Assign(map).FirstOrCreate|FirstOrInit on a found record) on one of six fixed hand-written model types or (half of the cases) on a GENERATED model type built with reflect.StructOf: key + 3-6 string/int fields, each with an independent random choice of '-' / '-:all' / '-:migration', '->' / '->:false' and '<-' / '<-:create' / '<-:update' / '<-:false' / '<-:create,update', default or custom column, optional CreatedAt / UpdatedAt / Touched tracked fields as time.Time, unix seconds or milliseconds with random permissions. The fixed types (together they carry every permission tag <-:create <-:update <-:false <- -> ->:false ->;<-:create - -:migration -:all <-:create,update, custom column names, and auto-time fields as time.Time / unix seconds / milliseconds with and without write permission)) x random Select/Omit lists (0-3 items: '*', 'tbl.*', struct-field spelling, column spelling, 'tbl.col', unknown name) x payload with zero and non-zero entries (struct: every field; map: 1-4 keys in column or field spelling) x model key and/or Where(row IN subset) selecting a strict subset of the 4 stored rows; the seventh fixed type M7 has a COMPOSITE primary key (ID, Locale) whose stored rows share members pairwise, updated through model values carrying the whole key or one member. Observed: the cell-by-cell diff of the table (raw SELECT) with each changed cell classified now / payload value / other, and gorm's parsed permission flags. Domain: map keys name existing columns and (for updates) never the primary key; DoUpdates(cols) runs without Select/Omit; the struct payload is of the model type with a zero key; updates always carry a model key or a Where; explicit DoUpdates lists name only columns with create and update permission. distinct = distinct (type, finisher, select, omit, payload zero pattern and spelling, targeting); non-trivial = some cell changed and (a Select/Omit is present or the type carries permission tags)."
+	out.Extra["rule"] = "a case = one write finisher (Create, Create(&slice)/CreateInBatches, Create from map, upsert UpdateAll / DoUpdates(cols) / DoNothing, Save, Update, Updates struct|map, UpdateColumn, UpdateColumns struct|map, Create(&[]map) with per-key column/field spelling, [Model(&T{}).]Where(2-3 rows).Assign(map).FirstOrCreate|FirstOrInit on a found record) on one of six fixed hand-written model types or (half of the cases) on a GENERATED model type built with reflect.StructOf: key + 3-6 string/int fields, each with an independent random choice of '-' / '-:all' / '-:migration', '->' / '->:false' and '<-' / '<-:create' / '<-:update' / '<-:false' / '<-:create,update', default or custom column, a database-side default `default:(expr)` on 1/4 of the fields, optional CreatedAt / UpdatedAt / Touched tracked fields as time.Time, unix seconds or milliseconds with random permissions. The fixed types (together they carry every permission tag <-:create <-:update <-:false <- -> ->:false ->;<-:create - -:migration -:all <-:create,update, custom column names, and auto-time fields as time.Time / unix seconds / milliseconds with and without write permission)) x random Select/Omit lists (0-3 items: '*', 'tbl.*', struct-field spelling, column spelling, 'tbl.col', unknown name) x payload with zero and non-zero entries (struct: every field; map: 1-4 keys in column or field spelling) x model key (a struct, or a slice of 2-3 structs mixing keyed and key-less elements in every order, always with a Where) and/or Where(row IN subset) selecting a strict subset of the 4 stored rows; the seventh fixed type M7 has a COMPOSITE primary key (ID, Locale) whose stored rows share members pairwise, updated through model values carrying the whole key or one member. Observed: the cell-by-cell diff of the table (raw SELECT) with each changed cell classified now / payload value / other, and gorm's parsed permission flags. Domain: map keys name existing columns and (for updates) never the primary key; DoUpdates(cols) runs without Select/Omit; the struct payload is of the model type with a zero key; updates always carry a model key or a Where; explicit DoUpdates lists name only columns with create and update permission. distinct = distinct (type, finisher, select, omit, payload zero pattern and spelling, targeting); non-trivial = some cell changed and (a Select/Omit is present or the type carries permission tags)."
 	lib.Must(out.Flush())
 }
